@@ -15,12 +15,13 @@
 //! S (real versus real, after every step):
 //!  * `SignerBuilder::new(svc.X_signers_with_stake(), params).compute_aggregate_verification_key()` = `svc.X_aggregate_verification_key()`
 //!    for X = current, next whenever a key is reported (class `stale-key`; `stale-after-failed-update` when the
-//!    last `update_next_signers_with_stake` failed — known finding);
+//!    last `update_next_signers_with_stake` failed — the finding repaired by 9c9bc53d6, must never fire);
 //!  * the reported signer sets are the registrations the harness wrote for the epochs `e - 1` / `e` (own record of the writes);
 //!  * a FRESH service over the same stores, informed of the same epoch, reports the same sets and keys whenever the store
 //!    was not written since the live service last read it;
 //!  * `next_signers()` / `total_next_stakes_signers()` agree with `next_signers_with_stake()` (class `stale-next-signers`
-//!    after an update — known finding).
+//!    after an update — the finding repaired by df18c4ce4, must never fire).
+//! A panic (stake totals beyond 2^64 with overflow checks on) ends the history: nothing is observed after it.
 use std::collections::{BTreeMap, BTreeSet};
 use std::sync::Arc;
 
@@ -421,8 +422,8 @@ fn main() {
         if !sink.wanted() { sink.skip(); continue; }
         let ops = gen_history(&mut hrng, args.thorough());
         let mut env = rt.block_on(make_env(&format!("h{}", h), &params));
-        let req = format!("c06.service keys=[{}] ops=[{}]", keys.hexes.join(","), ops.iter().map(op_token).collect::<Vec<_>>().join(","));
         let idx = sink.next_index();
+        let mut executed = 0usize;
         let mut steps: Vec<String> = vec![];
         // the harness' own record of what it wrote: (epoch, party) -> (key, stake)
         let mut written: BTreeMap<(u64, usize), (usize, u64)> = BTreeMap::new();
@@ -456,7 +457,9 @@ fn main() {
                     let svc = env.svc.clone();
                     let r = rt.block_on(hagg::catch_async(async { svc.write().await.update_next_signers_with_stake().await }));
                     let c = res_class(&r);
-                    if c != "err:notinit" { dirty_next = false; updated_since_inform = true; update_failed = c != "ok"; }
+                    // a successful update re-reads the next signers; a failing one keeps the previous ones (and the previous keys)
+                    if c == "ok" { dirty_next = false; }
+                    if c != "err:notinit" { updated_since_inform = true; update_failed = c != "ok"; }
                     c
                 }
                 Op::Precompute => {
@@ -467,10 +470,17 @@ fn main() {
                     c
                 }
             };
+            executed += 1;
+            if res == "panic" {
+                // a panic ends the node: the history ends here, nothing is observed after it
+                steps.push("panic".to_string());
+                break;
+            }
             let svc = env.svc.clone();
             let guard = rt.block_on(async { svc.read().await });
             // the slots are probed after the service calls (a store write does not reach the service)
             let o = observe(&keys, &*guard, &stm_params, &pm, matches!(op, Op::Inform(_) | Op::Update | Op::Precompute) || si + 1 == ops.len());
+            // (a history cut by a panic ends with a service call, whose step is not observed)
             steps.push(format!("{};{}", res, o.text));
             let at = format!("step {} {}", si, op_token(op));
 
@@ -555,6 +565,8 @@ fn main() {
                 }
             }
         }
+        // the request holds the operations that were executed (all of them unless a panic ended the history)
+        let req = format!("c06.service keys=[{}] ops=[{}]", keys.hexes.join(","), ops[..executed].iter().map(op_token).collect::<Vec<_>>().join(","));
         let i = sink.case(if h % 2 == 0 { "history-even" } else { "history-odd" }, &req, &steps.join(" | "));
         debug_assert_eq!(i, idx);
         for (class, what) in sfails {
@@ -562,7 +574,7 @@ fn main() {
         }
     }
 
-    // ---- witnesses of the known findings, replayed on the real service every run -------------------------------------
+    // ---- witnesses of the two repaired findings, replayed on the real service every run (must not reproduce) -------------------------------------
     {
         let ok = |r: &anyhow::Result<()>| if r.is_ok() { "Ok" } else { "Err" };
         let save = |env: &Env, e: u64, p: usize, k: usize, s: u64| { let _ = rt.block_on(env.vk_store.save_verification_key(Epoch(e), keys.signer(p, k, s))); };
